@@ -221,6 +221,8 @@ def run(ctx):
                     try:
                         _P().assemble_string_with_emitter(wsrc, "w.s", w_)
                         w_.end()
+                    except core.Timeout:
+                        raise
                     except Exception:  # noqa: BLE001
                         pass
                 s3.cases += 1
